@@ -8,6 +8,11 @@ using vrf::Win;
 struct Boom {
     uint32_t id;
 };
+// the same failure as an exception of a standard library type (a handler that stores "the exception" by its static type
+// would keep a std::exception that is not what the function threw)
+struct BoomStd: public std::out_of_range, public Boom {
+    explicit BoomStd(uint32_t i): std::out_of_range("value rejected"), Boom{i} {}
+};
 struct Act {
     char kind;  // D detach, A async(int), V async(void), R shared handle, L load
     int form;   // R: 0 lock_shared 1 try 2 try_for 3 try_until
@@ -61,7 +66,10 @@ static int functor_body(Cell& c, uint32_t id, bool throws, int hold, Shared* sh,
     sh->exec_seq[id].store(sh->seq.fetch_add(1, std::memory_order_relaxed), std::memory_order_relaxed);
     c.check("functor");
     for (int i = 0; i < hold; i++) vrf::user_point();
-    if (throws) throw Boom{id};
+    if (throws) {
+        if (id % 2) throw BoomStd(id);
+        throw Boom{id};
+    }
     c.append_raw(id);
     sh->seen_len[id].store(c.n, std::memory_order_relaxed);
     if (nested && *nested) (*nested)();  // user code may use other wrappers from inside a modification
@@ -325,6 +333,9 @@ static void one_round(long r, const char* mname)
             catch (const std::future_error& e) {
                 vrf::violation("oracle:future_error", vrf::jstr(e.what()));
             }
+            catch (const std::exception& e) {
+                vrf::violation("oracle:future_holds_an_exception_the_function_did_not_throw", vrf::jstr(e.what()));
+            }
         }
         for (auto& f : futs_r[t]) {
             if (!vrf::is_ready(f.second)) vrf::violation("oracle:async_future_not_ready_after_drain", "{\"id\":" + std::to_string(f.first) + "}");
@@ -343,6 +354,9 @@ static void one_round(long r, const char* mname)
             catch (const std::future_error& e) {
                 vrf::violation("oracle:future_error", vrf::jstr(e.what()));
             }
+            catch (const std::exception& e) {
+                vrf::violation("oracle:future_holds_an_exception_the_function_did_not_throw", vrf::jstr(e.what()));
+            }
         }
         for (auto& f : futs_v[t]) {
             if (!vrf::is_ready(f.second)) vrf::violation("oracle:async_future_not_ready_after_drain", "{\"id\":" + std::to_string(f.first) + "}");
@@ -358,6 +372,9 @@ static void one_round(long r, const char* mname)
             }
             catch (const std::future_error& e) {
                 vrf::violation("oracle:future_error", vrf::jstr(e.what()));
+            }
+            catch (const std::exception& e) {
+                vrf::violation("oracle:future_holds_an_exception_the_function_did_not_throw", vrf::jstr(e.what()));
             }
         }
     }
